@@ -49,6 +49,8 @@ class Result:
         self.not_decided = []
 
     def finding(self, key, msg, witness=None, detail=None):
+        if any(f["key"] == key for f in self.findings):
+            return
         self.findings.append({"key": key, "msg": msg, "witness": witness, "detail": detail or {}})
 
     def ob(self, ok, n=1):
